@@ -705,6 +705,48 @@ func (m *mon) histDstReuse(a *acc, idx int) {
 	db := distmv.NewDirichlet(alpha, m.c.RNG("hist.dst.d", idx))
 	vecEq("distmv.Dirichlet.Rand|used-destination|differs-from-nil-destination", da.Rand(used()), db.Rand(nil))
 	a.eval("dst-reuse|Rand", 8)
+	// documented: "If dst is not nil, the ... will be stored in-place into dst
+	// and returned": the returned slice is dst and holds the nil-form values
+	xq := make([]float64, dim)
+	pq := make([]float64, dim)
+	for i := range xq {
+		xq[i] = r.Uniform(-2, 2)
+		pq[i] = r.Uniform(0.05, 0.95)
+	}
+	nd, _ := distmv.NewNormal(mu, sigma.sym(), nil)
+	ud := distmv.NewUniform(bnds, nil)
+	dd := distmv.NewDirichlet(alpha, nil)
+	for _, t := range []struct {
+		name string
+		f    func(dst []float64) []float64
+	}{
+		{"distmv.Normal.Mean", nd.Mean},
+		{"distmv.Normal.Quantile", func(d []float64) []float64 { return nd.Quantile(d, pq) }},
+		{"distmv.Normal.ScoreInput", func(d []float64) []float64 { return nd.ScoreInput(d, xq) }},
+		{"distmv.Normal.TransformNormal", func(d []float64) []float64 { return nd.TransformNormal(d, xq) }},
+		{"distmv.StudentsT.Mean", st.Mean},
+		{"distmv.Uniform.Mean", ud.Mean},
+		{"distmv.Uniform.CDF", func(d []float64) []float64 { return ud.CDF(d, xq) }},
+		{"distmv.Uniform.Quantile", func(d []float64) []float64 { return ud.Quantile(d, pq) }},
+		{"distmv.Dirichlet.Mean", dd.Mean},
+	} {
+		want := t.f(nil)
+		dst := used()
+		ret := t.f(dst)
+		a.eval(t.name+"|dst-provided", 2)
+		if len(ret) != dim || &ret[0] != &dst[0] {
+			a.fail(t.name+"|dst-provided|does-not-return-dst", where, "returned slice is not the destination")
+			continue
+		}
+		vecEq(t.name+"|dst-provided|differs-from-nil-destination", dst, want)
+		if _, panicked := try(func() { t.f(make([]float64, dim+1)) }); !panicked {
+			a.fail(t.name+"|dst-wrong-length|no-panic", where, "documented panic missing")
+		}
+	}
+	gb := make([]r1.Interval, dim)
+	if rb := ud.Bounds(gb); &rb[0] != &gb[0] || rb[dim-1] != bnds[dim-1] {
+		a.fail("distmv.Uniform.Bounds|dst-provided|does-not-return-dst", where, "got %v", rb)
+	}
 	// UniformPermutation reused with changing sizes stays a permutation matrix
 	up := distmat.NewUniformPermutation(m.c.RNG("hist.dst.perm", idx))
 	for _, sz := range []int{3, 7, 3, 1, 8, 7} {
